@@ -99,6 +99,17 @@ v("b-agg-indexed","C04","internal/icolumn/column_gen.go","	data := make([]int, 0
 v("b-view-local","C09","internal/icolumn/column_gen.go","	return v.data[v.index[i]]","	pos := v.index[i]\n	return v.data[pos]","","benign","hoist the position")
 v("b-tojson-index-loop","C14","qframe.go","	for i, ix := range qf.index {\n		jsonBuf = jsonBuf[:0]","	for i := 0; i < len(qf.index); i++ {\n		ix := qf.index[i]\n		jsonBuf = jsonBuf[:0]","","benign","classic counted loop over the index")
 
+
+# ---- round 2 rules ----
+v("c10-or-early-exit","C10","filter.go","			newQf := c.filter(qf)\n			filteredQf = orFrames(&qf, filteredQf, &newQf)\n		}\n	}\n","			newQf := c.filter(qf)\n			filteredQf = orFrames(&qf, filteredQf, &newQf)\n			if filteredQf.Len() == qf.Len() {\n				return *filteredQf\n			}\n		}\n	}\n","R52")
+v("b-and-exit-on-error","C10","filter.go","	for _, c := range c.subClauses {\n		newQf := c.filter(*filteredQf)\n		filteredQf = &newQf\n	}\n","	for _, c := range c.subClauses {\n		newQf := c.filter(*filteredQf)\n		filteredQf = &newQf\n		if filteredQf.Err != nil {\n			return *filteredQf\n		}\n	}\n","","benign","stop at the first error (errors are sticky anyway)")
+v("c06-reused-arg","C06","internal/scolumn/column.go","	case func(*string) *string:\n		result := make([]*string, len(c.pointers))\n		for _, i := range ix {\n			result[i] = t(stringToPtr(c.stringAt(i)))\n		}\n		return result, nil\n	case string:","	case func(*string) *string:\n		result := make([]*string, len(c.pointers))\n		var arg string\n		for _, i := range ix {\n			s, isNull := c.stringAt(i)\n			if isNull {\n				result[i] = t(nil)\n				continue\n			}\n			arg = s\n			result[i] = t(&arg)\n		}\n		return result, nil\n	case string:","R53")
+v("b-arg-per-iteration","C06","internal/scolumn/column.go","	case func(*string) *string:\n		result := make([]*string, len(c.pointers))\n		for _, i := range ix {\n			result[i] = t(stringToPtr(c.stringAt(i)))\n		}\n		return result, nil\n	case string:","	case func(*string) *string:\n		result := make([]*string, len(c.pointers))\n		for _, i := range ix {\n			s, isNull := c.stringAt(i)\n			if isNull {\n				result[i] = t(nil)\n				continue\n			}\n			arg := s\n			result[i] = t(&arg)\n		}\n		return result, nil\n	case string:","","benign","a fresh variable per iteration")
+v("c05-null-hardcoded","C05","qframe.go","	comparables := qf.comparables(columns, orders, config.GroupByNull)\n	newIx := grouper.Distinct(qf.index, comparables)","	comparables := qf.comparables(columns, orders, false)\n	newIx := grouper.Distinct(qf.index, comparables)","R55")
+v("c08-select-shortcut","C08","qframe.go","	newColumnsByName := make(map[string]namedColumn, len(columns))\n	newColumns := make([]namedColumn, len(columns))\n	for i, col := range columns {","	if len(columns) == len(qf.columns) {\n		return qf\n	}\n\n	newColumnsByName := make(map[string]namedColumn, len(columns))\n	newColumns := make([]namedColumn, len(columns))\n	for i, col := range columns {","R51")
+v("b-select-checked-shortcut","C08","qframe.go","	newColumnsByName := make(map[string]namedColumn, len(columns))\n	newColumns := make([]namedColumn, len(columns))\n	for i, col := range columns {","	same := len(columns) == len(qf.columns)\n	for i := 0; same && i < len(columns); i++ {\n		same = columns[i] == qf.columns[i].name\n	}\n	if same {\n		return qf\n	}\n\n	newColumnsByName := make(map[string]namedColumn, len(columns))\n	newColumns := make([]namedColumn, len(columns))\n	for i, col := range columns {","","benign","identity shortcut that actually compares the requested names in order")
+v("c07-expr-inplace","C07","expression.go","	newArgs := make([]interface{}, len(args)-1)\n	newArgs[0] = newExpr([]interface{}{name, args[0], args[1]})\n	copy(newArgs[1:], args[2:])\n	return Expr(name, newArgs...)","	args[1] = newExpr([]interface{}{name, args[0], args[1]})\n	return Expr(name, args[1:]...)","R1x")
+
 json.dump({"variants":V},open('/verif/qfcheck/variants/catalogue.json','w'),indent=1)
 import os
 bad=0
